@@ -195,8 +195,10 @@ theorem zipLay_map_fst (rs : List GbRec) (ls : List RecLayout) : (zipLay rs ls).
 def initOf (p : GbRec × RecLayout) : List Str := (layout p.1 p.2).dropLast
 
 theorem layout_eq_init (p : GbRec × RecLayout) : layout p.1 p.2 = initOf p ++ [c!"//"] := by
-  simp only [initOf, layout]
-  rw [List.dropLast_concat]
+  have h : ∃ X, layout p.1 p.2 = X ++ [c!"//"] := ⟨_, rfl⟩
+  obtain ⟨X, hX⟩ := h
+  unfold initOf
+  rw [hX, List.dropLast_concat]
 
 theorem unlines_layout (p : GbRec × RecLayout) : unlines (layout p.1 p.2) = recText (initOf p) := by
   rw [layout_eq_init, unlines_append]
